@@ -12,16 +12,16 @@ From PqGen Require Import GenDispatch.
 Import ListNotations.
 Open Scope N_scope.
 
-Definition mem_safe (w : N) (selfmade : bool) (d : idec) : bool :=
+Definition mem_safe (w : N) (selfmade one_run : bool) (d : idec) : bool :=
   match d with
-  | DFast => selfmade && own_width w
-  | DGeneric a isz => ((isz =? 1) || (isz =? 4)) && (0 <? w) && negb (selfmade && own_width w)
+  | DFast => takes_view w selfmade one_run
+  | DGeneric a isz => ((isz =? 1) || (isz =? 4)) && (0 <? w) && negb (takes_view w selfmade one_run)
   | DZeros => true
   | DNone => true
   end.
 
-Definition chain_safe (f : N -> bool -> idec) : bool :=
-  forallb (fun w => mem_safe w false (f w false) && mem_safe w true (f w true)) widths_0_32.
+Definition chain_safe (f : N -> bool -> bool -> idec) : bool :=
+  forallb (fun w => all_flags (fun sm one => mem_safe w sm one (f w sm one))) widths_0_32.
 
 Theorem index_leaves_memory_safe :
   chain_safe (v1_index_dispatch true) = true /\ chain_safe (v2_cat_dispatch true) = true /\
